@@ -120,7 +120,7 @@ package frame
 //@   requires f.builder != nil
 //@   requires f.builder != nil ==> (0 <= f.builder.offset.v && f.builder.offset.v <= 100 && 0 <= f.builder.overhead.v && f.builder.overhead.v <= 100)
 //@   requires f.pooledSlice != nil ==> cap(f.pooledSlice) == len(f.pooledSlice) && off(f.pooledSlice) == 0
-//@   requires len(switchLabels) <= 65536 && len(data) <= 65536 && len(appendixData) <= 65536
+//@   requires len(switchLabels) <= 1000000 && len(data) <= 1000000 && len(appendixData) <= 1000000
 //@   requires f.pooledSlice != nil ==> base(switchLabels) != base(f.pooledSlice) && base(data) != base(f.pooledSlice) && base(appendixData) != base(f.pooledSlice)
 //@   ensures live [C17]: result == nil ==> f.data != nil && layout(f.data, f.messageIndex, f.authIndex, f.appendixIndex)
 //@   ensures buffer [C17]: result == nil ==> f.pooledSlice != nil && base(f.data) == base(f.pooledSlice) && (base(f.pooledSlice) == old(base(f.pooledSlice)) || fresh(base(f.pooledSlice))) && 0 <= f.psDataOffset && f.psDataOffset <= 100 && off(f.data) == off(f.pooledSlice) + f.psDataOffset && len(f.pooledSlice) == cap(f.pooledSlice) && f.psDataOffset + cap(f.data) <= len(f.pooledSlice)
@@ -130,7 +130,7 @@ package frame
 
 //@ func Builder.NewFrameV1
 //@   requires b != nil && 0 <= b.offset.v && b.offset.v <= 100 && 0 <= b.overhead.v && b.overhead.v <= 100
-//@   requires len(switchLabels) <= 65536 && len(data) <= 65536 && len(appendixData) <= 65536
+//@   requires len(switchLabels) <= 1000000 && len(data) <= 1000000 && len(appendixData) <= 1000000
 //@   ensures live [C17]: result1 == nil ==> live(result0) && result0.builder == b && result0.dblReturnCheck == 0
 //@   ensures fresh [C17]: result1 == nil ==> fresh(result0) && result0.recvLink == nil
 //@   ensures content [C02,C17]: result1 == nil ==> result0.src == src && result0.dst == dst && result0.data[4] == uint8(msgType) && result0.messageIndex == 49 + len(switchLabels) && result0.authIndex == result0.messageIndex + 2 + len(data) && (forall i int :: 0 <= i && i < len(data) ==> result0.data[result0.messageIndex+2+i] == data[i])
@@ -140,7 +140,7 @@ package frame
 //@   option noinv
 //@   requires live(f) && layout(f.data, f.messageIndex, f.authIndex, f.appendixIndex) && f.builder != nil && 0 <= f.builder.offset.v && f.builder.offset.v <= 100 && 0 <= f.builder.overhead.v && f.builder.overhead.v <= 100
 //@   requires f.pooledSlice != nil ==> cap(f.pooledSlice) == len(f.pooledSlice) && off(f.pooledSlice) == 0
-//@   requires len(switchLabels) <= 65536 && len(data) <= 65536 && len(appendixData) <= 65536
+//@   requires len(switchLabels) <= 1000000 && len(data) <= 1000000 && len(appendixData) <= 1000000
 //@   requires f.pooledSlice != nil ==> base(switchLabels) != base(f.pooledSlice) && base(data) != base(f.pooledSlice) && base(appendixData) != base(f.pooledSlice)
 //@   ensures swapped [C17]: result == nil ==> f.src == old(f.dst) && f.dst == old(f.src) && f.data[4] == old(f.data[4]) && f.recvLink == nil
 //@   ensures relaid [C17]: result == nil ==> live(f) && layout(f.data, f.messageIndex, f.authIndex, f.appendixIndex) && f.messageIndex == 49 + len(switchLabels) && (forall i int :: 0 <= i && i < len(data) ==> f.data[f.messageIndex+2+i] == data[i])
@@ -169,6 +169,7 @@ package frame
 
 //@ func FrameV1.Seal
 //@   requires live(f) && s != nil
+//@   modifies f.data[1:16], f.data[f.messageIndex+2 : f.appendixIndex], any("F|state."), any("F|sync/atomic.Uint32")
 //@   callsite ed25519.Sign signed-range [C02]: base(arg1) == base(f.data) && off(arg1) == off(f.data) && len(arg1) == f.authIndex
 //@   callsite ed25519.Sign ttl-flags-zeroed [C02]: f.data[1] == 0 && f.data[2] == 0
 //@   callsite AEAD.Seal nonce [C02]: base(arg1) == base(f.data) && off(arg1) == off(f.data) + 4 && len(arg1) == 12
